@@ -209,6 +209,9 @@ def build_transformer(spec):
     if k == "adapt":
         from sktime.transformations.series.adapt import TabularToSeriesAdaptor
         from sklearn.preprocessing import MinMaxScaler, StandardScaler
+        if spec.get("inner") == "standard_inplace":
+            # (a scaler that, legitimately, works in place on the array it is handed)
+            return TabularToSeriesAdaptor(StandardScaler(copy=False))
         inner = {"minmax": MinMaxScaler, "standard": StandardScaler}[spec.get("inner", "minmax")]()
         return TabularToSeriesAdaptor(inner)
     if k == "optional":
@@ -413,7 +416,7 @@ def gen_transformer(rng, invertible=True):
     if r < 0.78:
         return {"kind": "log"}
     if r < 0.9:
-        return {"kind": "adapt", "inner": rng.choice(["minmax", "standard"])}
+        return {"kind": "adapt", "inner": rng.choice(["minmax", "standard", "standard_inplace"])}
     inner = gen_transformer(rng)
     while inner["kind"] == "optional":
         inner = gen_transformer(rng)
